@@ -13,6 +13,7 @@ import base64
 import http.client
 import json
 import os
+import re
 import socket
 import threading
 import time
@@ -1128,8 +1129,10 @@ MALFORMED_CLASSES = [
 # service pool (driver op `serve`, one service per shard)
 # ---------------------------------------------------------------------------------------------------
 class Pool:
-    def __init__(self, workdir, n, max_seconds, variant="dbg"):
-        self.dir = os.path.join(workdir, "serve")
+    def __init__(self, workdir, n, max_seconds, variant="dbg", sub="serve"):
+        self.dir = os.path.join(workdir, sub)
+        self.sub = sub
+        self.meta = None
         if os.path.isdir(self.dir):
             import shutil
 
@@ -1161,7 +1164,7 @@ class Pool:
 
         def body():
             try:
-                self.results, _ = runner.run_cases(self.variant, self.cases, self.workdir, label="serve", nshards=self.n, case_timeout=self.max_seconds + 60)
+                self.results, self.meta = runner.run_cases(self.variant, self.cases, self.workdir, label=self.sub, nshards=self.n, case_timeout=self.max_seconds + 60)
             except Exception as e:  # noqa: BLE001
                 self.error = e
 
@@ -1304,6 +1307,79 @@ def run(rep, tier, seed):
         rep.inconclusive_reason("too few requests observed: %d" % rep.extra["requests"])
     if rep.extra["transient_probe_failures"]:
         rep.extra["note"] = "some answers needed more than %ds once and were answered on re-probe (not a violation)" % TIMEOUT
+    tsan_phase(rep, tier, seed)
+
+
+def tsan_phase(rep, tier, seed):
+    """The concurrent-clients workload against the service built with ThreadSanitizer (Rust std, actix, dmntk and the decNumber C
+    sources instrumented): every worker parses, evaluates and renders numbers and temporal values while a writer replaces and
+    re-deploys the model. A data-race report with a dmntk / decNumber frame is a violation; reports without such a frame (none seen
+    so far) are counted only. If the variant cannot be built the phase is skipped and the evidence says so."""
+    n, phases, per_client = (1, 2, 20) if tier == "quick" else (2, 10, 40)
+    try:
+        pool = Pool(rep.workdir, n, 900, "tsan", sub="serve-tsan")
+        ready = pool.start()
+    except runner.Inconclusive as e:
+        print("NOTE property=C18 ThreadSanitizer service unavailable, race detection skipped: %s" % str(e)[:300])
+        rep.extra["tsan_unavailable"] = str(e)[:300]
+        return
+    founds = [Found() for _ in ready]
+    errors = []
+
+    def work(k):
+        try:
+            sess = Session(ready[k]["port"], ready[k]["workers"], founds[k], pool.cases[k]["panic_file"])
+            sess.history(rng_for(seed, "c18-tsan-history", k), 30)
+            for j in range(phases):
+                if sess.dead:
+                    break
+                sess.concurrent(rng_for(seed, "c18-tsan-concurrent", k, j), clients=[8, 4, 16][(k + j) % 3], per_client=per_client, with_writer=j % 2 == 0)
+        except Exception:  # noqa: BLE001
+            import traceback
+
+            errors.append(traceback.format_exc())
+
+    ts = [threading.Thread(target=work, args=(k,), daemon=True) for k in range(len(ready))]
+    try:
+        for t in ts:
+            t.start()
+        for t in ts:
+            t.join()
+    finally:
+        results = pool.stop()
+    if errors:
+        rep.extra["tsan_phase_client_error"] = errors[0][-600:]
+        return
+    races = {}
+    texts = list((pool.meta or {}).get("sanitizer_reports", []))
+    for res in results or []:
+        if res and "crash" in res and "ThreadSanitizer" in (res["crash"].get("stderr") or ""):
+            texts.append(res["crash"]["stderr"])
+    for text in texts:
+        for block in re.split(r"(?=WARNING: ThreadSanitizer)", text):
+            if "WARNING: ThreadSanitizer" not in block:
+                continue
+            kind = re.search(r"ThreadSanitizer: ([a-zA-Z -]+)", block)
+            frames = re.findall(r"#\d+ (\S*(?:dmntk|dec[A-Z]|decNumber|decimal)\S*)", block)
+            frames = [re.sub(r"::h[0-9a-f]{16}$", "", fr) for fr in frames if "verif_driver" not in fr]
+            key = "tsan:%s:%s" % ((kind.group(1).strip().replace(" ", "-") if kind else "report"), "|".join(frames[:2]) or "no-dmntk-frame")
+            races.setdefault(key, block[:1500])
+    for key, block in sorted(races.items()):
+        if "no-dmntk-frame" in key:
+            rep.bump("tsan_reports_without_dmntk_frames")
+            continue
+        rep.violation(key, block, {"variant": "tsan", "note": "concurrent clients against the ThreadSanitizer build of the service"})
+    reqs = 0
+    for f in founds:
+        rep.count(f.requests + f.probes)
+        reqs += f.requests
+        for sig, v in f.viol.items():
+            # values are judged on the tsan build as well (same oracle, same signatures, so the known findings apply)
+            rep.violation(sig, v["what"], {"variant": "tsan", "http": v["requests"], "expected": v["expected"], "observed": v["observed"]})
+    rep.extra["tsan_services"] = len(ready)
+    rep.extra["tsan_requests"] = reqs
+    rep.extra["tsan_concurrent_phases"] = phases * len(ready)
+    rep.extra["tsan_distinct_reports"] = len(races)
 
 
 def replay(rp):
